@@ -528,6 +528,27 @@ def constraints_from_atom(ev, d, rel, vals):
                 elif x != y:
                     out.append(("other", "unsatisfiable constant equality"))
             return out
+    # x <= 2^k - 1 / x < 2^k (either side): the bits k.. of x are zero, nothing else is constrained
+    if op in ("Le", "Lt", "Ge", "Gt"):
+        va, vb = ev.bv(a), ev.bv(b)
+        x, cst, o2 = None, None, op
+        if va is not None and vb is not None:
+            if vb.const_value() is not None and va.const_value() is None:
+                x, cst = va, vb.const_value()
+            elif va.const_value() is not None and vb.const_value() is None:
+                x, cst, o2 = vb, va.const_value(), {"Le": "Ge", "Lt": "Gt", "Ge": "Le", "Gt": "Lt"}[op]
+        if x is not None and o2 in ("Le", "Lt"):
+            bound = cst + 1 if o2 == "Le" else cst         # x < bound
+            if bound > 0 and bound & (bound - 1) == 0:
+                k = bound.bit_length() - 1
+                hi = x.bits[k:]
+                if all(bit in (0, 1) or isinstance(bit, tuple) for bit in x.bits):
+                    for bit in hi:
+                        if isinstance(bit, tuple):
+                            out.append(force(bit, 0))
+                        elif bit == 1:
+                            out.append(("other", "unsatisfiable constant comparison"))
+                    return out
     return [("cmp", op, a, b)]
 
 
